@@ -1115,7 +1115,8 @@ fn run(a: &vhcore::Args) -> i32 {
         }
     }
     let filtered = std::env::var("VH_C16_ONLY").is_ok();
-    if !filtered && (all.sigs.len() < 2 || all.spans == 0 || all.res[2][0] == 0 || all.res[2][1] == 0 || all.res[0][1] == 0) {
+    // the vacuity guards protect a PASS verdict; a run that already found violations reports them
+    if rep.violation_count() == 0 && !aborted && !filtered && (all.sigs.len() < 2 || all.spans == 0 || all.res[2][0] == 0 || all.res[2][1] == 0 || all.res[0][1] == 0) {
         vhcore::machinery_failure(&format!(
             "vacuous run: {} outcome signatures, {} spans checked, parse_file ok={} err={}, lex_commented err={}",
             all.sigs.len(), all.spans, all.res[2][0], all.res[2][1], all.res[0][1]
